@@ -164,7 +164,7 @@ Gcols(sym, vals, np) == [sym |-> sym, form |-> "cols", e |-> CI(0), vals |-> val
 SymT == [op |-> "T", i |-> 0]
 SymT0 == [op |-> "t0", i |-> 0]
 Ramp(n) == Tup([c \in 1..n |-> Q(2 * c - 3, 2)])
-GuessIds == {"none", "xc", "xe", "xcols", "uc", "ue", "ucolsN", "ucolsNp", "vcols", "ve", "vg", "T", "t0", "twice", "mix", "z"}
+GuessIds == {"Tfirst", "none", "xc", "xe", "xcols", "uc", "ue", "ucolsN", "ucolsNp", "vcols", "ve", "vg", "T", "t0", "twice", "mix", "z"}
 GuessSeq(id, d, N) ==
   LET hasV == Len(d.vars) >= 2
       hasZ == Len(d.algs) >= 1
@@ -184,6 +184,7 @@ GuessSeq(id, d, N) ==
        [] id = "twice"   -> <<Gc(X(1), Q(3, 2)), Ge(U(1), Tm), Ge(X(1), Minus(CI(1), Tm)), Gc(U(1), Q(1, 4))>>
        [] id = "mix"     -> <<Ge(X(1), Times(Tm, Tm)), Gcols(U(1), Ramp(N), FALSE)>>
                             \o (IF d.T.kind = "free" THEN <<Gc(SymT, Q(3, 1))>> ELSE <<>>)
+       [] id = "Tfirst"  -> IF d.T.kind = "free" THEN <<Gc(SymT, Q(3, 1)), Ge(X(1), Times(Tm, Tm)), Ge(U(1), Minus(Tm, TT))>> ELSE <<>>
        [] id = "z"       -> IF hasZ THEN <<Ge(Z(1), Plus(Tm, CI(2))), Gc(X(1), Q(1, 2))>> ELSE <<>>
 
 ScaleSets == {"s0", "s1", "s2"}
